@@ -259,12 +259,21 @@ impl Version {
             })
             .collect::<crate::Result<Vec<_>>>()?;
 
+        let blob_file_list =
+            BlobFileList::new(blob_files.iter().cloned().map(|bf| (bf.id(), bf)).collect());
+
+        // NOTE: Fragmentation entries of blob files that are not part of the version anymore
+        // must not be carried over: blob file IDs continue after the highest *listed* ID,
+        // so a new blob file could otherwise inherit the garbage statistics of a dropped one
+        let mut gc_stats = recovery.gc_stats;
+        gc_stats.prune(&blob_file_list);
+
         Ok(Self::from_levels(
             recovery.curr_version_id,
             recovery.tree_type,
             version_levels,
-            BlobFileList::new(blob_files.iter().cloned().map(|bf| (bf.id(), bf)).collect()),
-            recovery.gc_stats,
+            blob_file_list,
+            gc_stats,
         ))
     }
 
